@@ -88,7 +88,7 @@ fn replay_impl(args: &[&str], nodup: bool, verbose: bool) -> bool {
 /// Witness search (used after a contract of unit nodup_fringe / simple_fringe fails): random operation sequences over a small
 /// alphabet, each replayed against the reference model.  args: <seed> <number of sequences> ; prints the first failing sequence.
 pub fn fuzz(args: &[&str], nodup: bool) -> bool {
-    let mut x: u64 = args.first().and_then(|s| s.parse().ok()).unwrap_or(1) * 6364136223846793005 + 1442695040888963407;
+    let mut x: u64 = args.first().and_then(|s| s.parse::<u64>().ok()).unwrap_or(1).wrapping_mul(6364136223846793005).wrapping_add(1442695040888963407);
     let n: usize = args.get(1).and_then(|s| s.parse().ok()).unwrap_or(20000);
     let mut next = move |m: u64| { x = x.wrapping_mul(6364136223846793005).wrapping_add(1442695040888963407); (x >> 33) % m };
     for it in 0..n {
